@@ -21,7 +21,8 @@ C13_REQS = [
          'gate_callee': ['PartialEq'], 'cover': ['self.v', 'self.e', 'self.s', 'a_bases', 'message', 'pk.b', 'pk.c', 'pk.N']},
         {'id': 'e-lower', 'what': 'e > 2^(le-1) gates acceptance', 'gate_callee': ['PartialOrd'], 'cover': ['self.e', 'a:le'], 'pure': ['self.e']},
         {'id': 'attribute-range', 'what': 'the attribute is compared with 2^lm before acceptance (0 <= m < 2^lm)',
-         'gate_callee': ['PartialOrd', 'Ord::cmp', 'significant_bits'], 'gate_op': ['Lt', 'Le', 'Gt', 'Ge'], 'cover': ['message', 'a:lm'], 'pure': ['message']},
+         'gate_callee': ['PartialOrd', 'Ord::cmp', 'Iterator::any', 'Iterator::all', 'significant_bits'], 'gate_op': ['Lt', 'Le', 'Gt', 'Ge'],
+         'quantifier': 'forall', 'cover': ['message', 'a:lm'], 'pure': ['message']},
     ]),
     (SIGI + 'verify_multiattr', [
         {'id': 'equation', 'what': 'v^e == prod a_i^m_i * b^s * c (mod N) gates acceptance',
@@ -29,7 +30,7 @@ C13_REQS = [
         {'id': 'e-lower', 'what': 'e > 2^(le-1) gates acceptance', 'gate_callee': ['PartialOrd'], 'cover': ['self.e', 'a:le'], 'pure': ['self.e']},
         {'id': 'attribute-range', 'what': 'every attribute is compared with 2^lm before acceptance',
          'gate_callee': ['PartialOrd', 'Ord::cmp', 'Iterator::any', 'Iterator::all', 'significant_bits'], 'gate_op': ['Lt', 'Le', 'Gt', 'Ge'],
-         'cover': ['messages', 'a:lm'], 'pure': ['messages']},
+         'quantifier': 'forall', 'cover': ['messages', 'a:lm'], 'pure': ['messages']},
     ]),
 ]
 
@@ -487,3 +488,317 @@ def rule_range_proof_hash_sites(ctx, cfg='prod-all'):
             # loops that retry (proof_large_interval_specific) hash inside the loop: use may-flow there
             ok = has(must, req) or (any(bi in bl for h, bl in b.natural_loops()) and has(may, req))
             yield Ob('RF-C', '%s#hash∋%s' % (fn, spec), ok, 'ingredient reaches the Fiat-Shamir hash', '%s L%s' % (b.file(), t['line']), fact=None, expected=spec)
+
+
+# ---------------------------------------------------------------------------------- cursor discipline
+def _cursors(zf):
+    """locals used as manually advanced cursors: assigned `0` once and `c = c + 1` elsewhere."""
+    body, fd = zf.body, zf.fd
+    out = {}
+    for l, ds in fd.defs.items():
+        if fd.is_param(l) or body.local_ty(l) not in ('usize', 'u64', 'u32') or len(ds) < 2:
+            continue
+        inits, incs, other = [], [], 0
+        for kind, bi, x in ds:
+            if kind == 'assign' and x['rv']['k'] == 'use' and x['rv']['op']['k'] == 'const' and x['rv']['op'].get('int') == '0':
+                inits.append(bi)
+            elif kind == 'assign' and x['rv']['k'] == 'use' and x['rv']['op']['k'] in ('copy', 'move'):
+                pl = x['rv']['op']['pl']
+                d = zf.single_def(pl['l'])
+                if d and d[0] == 'assign' and d[2]['rv']['k'] == 'binop' and d[2]['rv']['op'].startswith('Add'):
+                    a, b = d[2]['rv']['a'], d[2]['rv']['b']
+                    def is_c(o):
+                        if o['k'] not in ('copy', 'move'):
+                            return False
+                        ll = o['pl']['l']
+                        for _ in range(3):
+                            if ll == l:
+                                return True
+                            dd = zf.single_def(ll)
+                            if dd and dd[0] == 'assign' and dd[2]['rv']['k'] == 'use' and dd[2]['rv']['op']['k'] in ('copy', 'move'):
+                                ll = dd[2]['rv']['op']['pl']['l']
+                            else:
+                                return False
+                        return False
+                    one = lambda o: o['k'] == 'const' and o.get('int') == '1'
+                    if (is_c(a) and one(b)) or (is_c(b) and one(a)):
+                        incs.append(bi)
+                    else:
+                        other += 1
+                else:
+                    other += 1
+            else:
+                other += 1
+        if inits and incs and not other:
+            out[l] = incs
+    return out
+
+
+def rule_cursor_discipline(ctx, cfg='prod-all', scope=('cl03::',)):
+    """a manually advanced cursor into a list (idx += 1) must be advanced on every path from the element it selects to the next
+    iteration: otherwise later positions re-read the same element (or skip one)."""
+    prog, za = ctx.prog(cfg), ctx.zone(cfg)
+    n = 0
+    for p, b in sorted(prog.bodies.items()):
+        if b.from_expansion or not p.startswith(scope) or b.kind == 'Closure':
+            continue
+        za.summary(p)
+        zf = za.zf(p)
+        cur = _cursors(zf)
+        if not cur:
+            continue
+        loops = b.natural_loops()
+        for c, incs in cur.items():
+            # blocks that use c (or a copy of it) as an index / key
+            uses = set()
+            copies = {c}
+            for bi, s in b.stmts():
+                if s['k'] == 'assign' and s['rv']['k'] == 'use' and s['rv']['op']['k'] in ('copy', 'move') and s['rv']['op']['pl']['l'] in copies \
+                        and not s['rv']['op']['pl'].get('p') and not s['dst'].get('p') and len(zf.fd.defs.get(s['dst']['l'], [])) == 1:
+                    copies.add(s['dst']['l'])
+            for bi, blk in enumerate(b.blocks):
+                if blk['cleanup']:
+                    continue
+                for s in blk['stmts']:
+                    if s['k'] == 'assign':
+                        rv = s['rv']
+                        pls = [o['pl'] for o in (rv.get('op'), rv.get('a'), rv.get('b')) if isinstance(o, dict) and o.get('k') in ('copy', 'move')]
+                        if rv['k'] in ('ref',):
+                            pls.append(rv['pl'])
+                        for pl in pls:
+                            if any(pr['k'] == 'index' and pr['l'] in copies for pr in pl.get('p', [])):
+                                uses.add(bi)
+                t = blk['term']
+                if t['k'] == 'call' and (t.get('callee') or '') in ('std::ops::Index::index', 'std::ops::IndexMut::index_mut', 'core::slice::<impl [T]>::get',
+                                                                  'std::vec::Vec::<T, A>::get', 'core::slice::<impl [T]>::get_mut') and len(t['args']) == 2:
+                    a1 = t['args'][1]
+                    if a1['k'] in ('copy', 'move') and a1['pl']['l'] in copies:
+                        uses.add(bi)
+            for u in sorted(uses):
+                for h, blocks in loops:
+                    if u not in blocks:
+                        continue
+                    latches = [x for x in blocks if h in b.succ[x]]
+                    # reachable from u inside the loop without passing an increment block
+                    seen, st = set(), [u]
+                    bad = False
+                    while st:
+                        x = st.pop()
+                        if x in seen:
+                            continue
+                        seen.add(x)
+                        if x in incs and x != u:
+                            continue
+                        if x in latches and not (x in incs):
+                            bad = True
+                            break
+                        for y in b.succ[x]:
+                            if y in blocks and y != h:
+                                st.append(y)
+                    n += 1
+                    name = b.local_name(c)
+                    yield Ob('RF-P', '%s#cursor:%s@%s' % (p, name, 'loop%d' % sorted(x for x, _ in loops).index(h)), not bad,
+                             'every path from a read of `%s`-indexed data to the next iteration advances `%s`' % (name, name), b.span,
+                             fact={'use_block': u, 'increment_blocks': incs}, expected='increment on every path')
+                    break
+    yield Ob('RF-P', 'cl03#cursor-census', n >= 8, 'cursor uses checked', '', fact=n, expected='>= 8', nontrivial=False)
+
+
+# ---------------------------------------------------------------------------------- untrusted skip conditions (C14)
+def rule_checks_not_skippable_by_artefact(ctx, cfg='prod-all'):
+    """whether a sub-verifier runs may depend on the issuer's / verifier's own inputs, never on fields of the untrusted proof: a proof
+    must not be able to switch a check off by omitting the component the check is about."""
+    prog, eng, ga = ctx.prog(cfg), ctx.eng(cfg), ctx.gates(cfg)
+    specs = [(ZKI + 'verify_proof', ['nisp2_verify_proof_MultiSecrets', 'nispMultiSecrets_verify_proof', 'nisp2sec_verify_proof', 'Boudot2000RangeProof::verify']),
+             (POKI + 'proof_verify', ['nisp5_MultiAttr_verify_proof', 'nisp2sec_verify_proof', 'Boudot2000RangeProof::verify'])]
+    for suffix, callees in specs:
+        b = resolve_fn(prog, suffix)
+        fd = eng.fndep(b.path)
+        kself = b.param_index('self')
+        n = 0
+        for bi, t in b.calls():
+            tgt = local_target(eng, t) or ''
+            if not any(tgt.endswith(c) for c in callees):
+                continue
+            n += 1
+            bad = []
+            for g in ga.block_gates(fd, bi):
+                if g.kind == 'deleg':
+                    continue        # an earlier sub-verifier failing is a refusal, not a skip
+                # a gate whose failing edge leaves the function (return false / panic) is a refusal too
+                sw, taken = g.edge
+                others = [x for x in b.succ[sw] if x != taken]
+                if others and all(bi not in b.reachable(o) and not _reaches_accept(b, fd, o) for o in others):
+                    continue
+                ats = g.all_atoms()
+                if any(strip(a)[0] == 'p' and strip(a)[1] == kself for a in ats):
+                    bad.append(g.describe())
+            yield Ob('RF-D', '%s#unskippable:%s[%d]' % (b.path, tgt.split('::')[-1], n), not bad,
+                     'the conditions under which this sub-verifier is invoked do not depend on the untrusted proof', '%s L%s' % (b.file(), t['line']),
+                     fact={'proof_dependent_conditions': bad[:4]}, expected='none')
+        if n == 0:
+            yield Ob('RF-D', '%s#unskippable:none' % b.path, False, 'expected sub-verifier calls', b.span, fact=0, expected='>= 1')
+
+
+def _reaches_accept(b, fd, start):
+    acc = {bi for bi, kind, _ in accept_blocks(fd) if kind in ('true', 'ok')}
+    return bool(acc & b.reachable(start))
+
+
+# ---------------------------------------------------------------------------------- mask vectors of the CL03 provers (C17 / C19)
+def rule_mask_vectors(ctx, cfg='prod-all'):
+    """per-attribute masks: (1) every element is a separate random_bits draw made inside the loop that stores it (no vec![x; n], no hoisting);
+    (2) in the signature proof, position i of r_5 holds a random mask exactly when i is in the hidden-position list (membership test on the
+    loop index), and the revealed value otherwise."""
+    prog, eng, ga, za = ctx.prog(cfg), ctx.eng(cfg), ctx.gates(cfg), ctx.zone(cfg)
+    fns = {SP + 'NISP2Commitments::nisp2_generate_proof_MultiSecrets': 'omega', SP + 'NISPMultiSecrets::nispMultiSecrets_generate_proof': 'r1',
+           SP + 'NISPSignaturePoK::nisp5_MultiAttr_generate_proof': 'r_5'}
+    for fn, vec in fns.items():
+        b = prog.bodies.get(fn)
+        if b is None:
+            raise AnchorMissing(fn)
+        fd = eng.fndep(fn)
+        za.summary(fn)
+        zf = za.zf(fn)
+        roots = [l for l, loc in enumerate(b.locals) if loc.get('name') == vec and loc['ty'].startswith('std::vec::Vec<rug::Integer')]
+        if not roots:
+            raise AnchorMissing('%s: mask vector %s' % (fn, vec))
+        root = roots[0]
+        # how is the vector created?
+        ds = fd.defs.get(root, [])
+        creators = []
+        for kind, bi, x in ds:
+            if kind == 'call':
+                creators.append(x.get('callee') or '')
+            elif kind == 'assign' and x['rv']['k'] == 'use' and x['rv']['op']['k'] in ('copy', 'move'):
+                from rf_bits import origin_call
+                oc = origin_call(zf, x['rv']['op']['pl']['l'])
+                creators.append((oc.get('callee') if oc else '?') or '?')
+        fresh_vec = len(creators) == 1 and creators[0].endswith(('Vec::<T>::new', 'Vec::<T>::with_capacity'))
+        yield Ob('RF-G2', '%s#%s:created-empty' % (fn, vec), fresh_vec, 'the mask vector starts empty and is filled element by element (vec![x; n] would repeat one draw)', b.span,
+                 fact=creators, expected='Vec::new()')
+        pushes = [(bi, t) for bi, t in b.calls() if (t.get('callee') or '') == 'std::vec::Vec::<T, A>::push' and t['args'][0]['k'] in ('copy', 'move')
+                  and fd.resolve_place(t['args'][0]['pl'])[0] == root]
+        loops = b.natural_loops()
+        rnd = []
+        other = []
+        for bi, t in pushes:
+            from rf_bits import origin_call
+            a = t['args'][1]
+            oc = origin_call(zf, a['pl']['l']) if a['k'] in ('copy', 'move') and not a['pl'].get('p') else None
+            src_block = None
+            if oc is not None and (local_target(eng, oc) or '').endswith('random_bits'):
+                src_block = next((x for x, tt in b.calls() if tt is oc), None)
+                inner = [(h, bl) for h, bl in loops if bi in bl]
+                same = bool(inner) and src_block is not None and all(src_block in bl for h, bl in inner)
+                rnd.append((bi, same))
+            else:
+                other.append(bi)
+        yield Ob('RF-G2', '%s#%s:draw-per-element' % (fn, vec), bool(rnd) and all(s for _, s in rnd),
+                 'each random mask is drawn by a random_bits call inside the storing loop', b.span, fact={'random_pushes': rnd, 'other_pushes': other}, expected='all in loop')
+        if vec == 'r_5':
+            kidx = b.param_index('unrevealed_message_indexes')
+            res = {}
+            for label, blist in (('random', [x for x, _ in rnd]), ('revealed', other)):
+                ok = bool(blist)
+                for bi in blist:
+                    good = False
+                    for g in ga.block_gates(fd, bi):
+                        if g.kind == 'call' and (g.what or '').endswith('contains') and len(g.operands) >= 2:
+                            a0 = g.operands[0]
+                            a1 = g.operands[1]
+                            on_list = any(strip(a)[0] == 'p' and strip(a)[1] == kidx for a in a0)
+                            # the tested value is the induction variable of the counting loop: its atoms are those of the range bounds only
+                            idx_ok = all(strip(a)[0] in ('c',) or (a[0] == 'len') for a in a1) or not any(strip(a)[0] == 'p' and strip(a)[1] == kidx for a in a1)
+                            want = (label == 'random')
+                            if on_list and idx_ok and g.truth == want:
+                                good = True
+                    ok = ok and good
+                res[label] = ok
+            yield Ob('RF-G2', '%s#r_5:selection' % fn, res.get('random') and res.get('revealed'),
+                     'r_5[i] is a fresh mask iff the hidden-position list contains i (so every hidden attribute is blinded), the revealed value otherwise', b.span,
+                     fact=res, expected={'random': True, 'revealed': True})
+            # s_5 reads r_5 at the hidden positions themselves
+            s5 = [(bi, t) for bi, t in b.calls() if (t.get('callee') or '') in ('core::slice::<impl [T]>::get', 'std::vec::Vec::<T, A>::get')
+                  and t['args'][0]['k'] in ('copy', 'move') and fd.resolve_place(t['args'][0]['pl'])[0] == root]
+            ok = bool(s5) and all(any(strip(a)[0] == 'p' and strip(a)[1] == kidx for a in fd.read_op(t['args'][1])) for bi, t in s5)
+            yield Ob('RF-G2', '%s#s_5:uses-hidden-positions' % fn, ok, 'the responses s_5 use r_5 at the hidden positions', b.span, fact=len(s5), expected='index from the hidden-position list')
+
+
+# ---------------------------------------------------------------------------------- tolerance exponent shape (C16)
+def _shape(zf, op, depth=0, fr=None, za=None):
+    """canonical additive shape of a u32/usize expression: sorted list of addends; non-additive sub-terms are rendered structurally."""
+    body = zf.body
+    if depth > 12:
+        return ['?']
+    if op['k'] == 'const':
+        if 'int' in op:
+            return [op['int']]
+        return [op.get('uneval', op.get('disp', '?')).split('::')[-1]]
+    pl = op['pl']
+    ps = pl.get('p', [])
+    if ps:
+        if len(ps) == 1 and ps[0]['k'] == 'field' and ps[0]['n'] == '0':
+            d = zf.single_def(pl['l'])
+            if d and d[0] == 'assign' and d[2]['rv']['k'] == 'binop':
+                return _shape_binop(zf, d[2]['rv'], depth, fr, za)
+        return ['?proj']
+    l = pl['l']
+    if zf.fd.is_param(l):
+        # in a helper frame: continue with the argument the caller passes (names of the entry point are the tabled ones)
+        if fr is not None and fr.parent is not None and fr.call is not None and za is not None and l - 1 < len(fr.call['args']):
+            return _shape(za.zf(fr.parent.path), fr.call['args'][l - 1], depth + 1, fr.parent, za)
+        return [body.local_name(l)]
+    d = zf.single_def(l)
+    if d is None:
+        return [body.local_name(l)]
+    kind, bi, x = d
+    if kind == 'assign':
+        rv = x['rv']
+        if rv['k'] == 'use':
+            return _shape(zf, rv['op'], depth + 1, fr, za)
+        if rv['k'] == 'binop':
+            return _shape_binop(zf, rv, depth, fr, za)
+        if rv['k'] == 'cast':
+            return _shape(zf, rv['op'], depth + 1, fr, za)
+        return ['?' + rv['k']]
+    cal = x.get('callee') or ''
+    if cal.endswith('DivRounding::div_floor') or cal.endswith('::div_floor'):
+        return ['(%s)/(%s)' % ('+'.join(_shape(zf, x['args'][0], depth + 1, fr, za)), '+'.join(_shape(zf, x['args'][1], depth + 1, fr, za)))]
+    return ['%s(%s)' % (cal.split('::')[-1], ','.join('+'.join(_shape(zf, a, depth + 1, fr, za)) for a in x['args']))]
+
+
+def _shape_binop(zf, rv, depth, fr=None, za=None):
+    op = rv['op'].replace('WithOverflow', '').replace('Unchecked', '')
+    a, b = _shape(zf, rv['a'], depth + 1, fr, za), _shape(zf, rv['b'], depth + 1, fr, za)
+    if op == 'Add':
+        return sorted(a + b)
+    if op == 'Div':
+        return ['(%s)/(%s)' % ('+'.join(a), '+'.join(b))]
+    return ['(%s)%s(%s)' % ('+'.join(a), {'Sub': '-', 'Mul': '*', 'Rem': '%', 'Shl': '<<', 'Shr': '>>'}.get(op, op), '+'.join(b))]
+
+
+def rule_tolerance_exponent(ctx, cfg='prod-all'):
+    """Boudot 2000, proof with tolerance scaled by 2^T: the enlarged interval is [2^T a - 2^(l+t+T/2+1) sqrt(b-a), 2^T b + 2^(l+t+T/2+1) sqrt(b-a)].
+    Every power of two whose exponent mentions both the tolerance parameters and T must have exactly the addends {l, t, floor(T/2), 1},
+    on the prover and on the verifier side (the two sides are separate code)."""
+    from flow import walk
+    prog, eng, za = ctx.prog(cfg), ctx.eng(cfg), ctx.zone(cfg)
+    want = sorted(['l', 't', '(T)/(2)', '1'])
+    for entry in (RP + 'proof_of_tolerance_specific', RP + 'verify_of_tolerance_specific'):
+        if entry not in prog.bodies:
+            raise AnchorMissing(entry)
+        found = []
+        for fr in walk(eng, entry, include_closures=False):
+            if not fr.path.startswith('cl03::range_proof'):
+                continue
+            za.summary(fr.path)
+            zf = za.zf(fr.path)
+            for bi, t in fr.body.calls():
+                if (t.get('callee') or '').endswith(('Pow::pow', 'Shl::shl', 'ShlAssign::shl_assign')) and len(t['args']) == 2:
+                    sh = _shape(zf, t['args'][1], 0, fr, za)
+                    if any('T' in s.replace('?', '') for s in sh) and len(sh) >= 3:
+                        found.append((fr.path.split('::')[-1], sh))
+        ok = len(found) >= 1 and all(sorted(sh) == want for _, sh in found)
+        yield Ob('RF-Q', '%s#tolerance-exponent' % entry, ok, 'the tolerance is 2^(l + t + floor(T/2) + 1) * sqrt(b - a) on both bounds', prog.bodies[entry].span,
+                 fact=found[:4], expected=want)
